@@ -164,8 +164,9 @@ Init ==
          /\ Cardinality({s \in {"url", "fetch", "header", "zip", "text"} :
                            cfg[s] \notin {"ok", "normal"}}) <= 1
 
-Fail(msgs) == /\ errors' = errors + msgs /\ pc' = "done" /\ UNCHANGED <<li, links>>
-Go(next)   == /\ pc' = next /\ UNCHANGED <<li, errors, links>>
+Keep == UNCHANGED <<row, dups, cfg>>
+Fail(msgs) == /\ errors' = errors + msgs /\ pc' = "done" /\ UNCHANGED <<li, links>> /\ Keep
+Go(next)   == /\ pc' = next /\ UNCHANGED <<li, errors, links>> /\ Keep
 \* url.rsplit('/', 1) (:62-66)
 Rsplit  == pc = "rsplit"  /\ IF cfg.url = "noslash" THEN Fail(1) ELSE Go("fetch")
 \* cache.get(url); `if not data` (:70-75)
@@ -177,14 +178,14 @@ Inflate == pc = "inflate" /\ IF cfg.zip # "ok" \/ cfg.header \in {"onlycomments"
 \* decompressed.decode('utf-8') (:102-108)
 Decode  == pc = "decode"  /\ IF cfg.text = "badutf8" THEN Fail(1) ELSE Go("lines")
 \* _parseInventory (:118-131), one line per step
-Lines   == /\ pc = "lines"
+Lines   == /\ pc = "lines" /\ Keep
            /\ IF li > Len(cfg.lines) THEN pc' = "done" /\ UNCHANGED <<li, errors, links>>
               ELSE LET eff == LineEffect(LineRow(cfg.lines[li])) IN
                    CASE eff = "raise" -> pc' = "raised" /\ UNCHANGED <<li, errors, links>>       \* update() is left by an exception
                      [] eff = "error" -> errors' = errors + 1 /\ li' = li + 1 /\ UNCHANGED <<pc, links>>
                      [] eff = "ignored" -> li' = li + 1 /\ UNCHANGED <<pc, errors, links>>
                      [] eff = "link" -> links' = links \cup {li} /\ li' = li + 1 /\ UNCHANGED <<pc, errors>>
-Next == (Rsplit \/ Fetch \/ Payload \/ Inflate \/ Decode \/ Lines) /\ UNCHANGED <<row, dups, cfg>>
+Next == Rsplit \/ Fetch \/ Payload \/ Inflate \/ Decode \/ Lines
 Spec == Init /\ [][Next]_vars
 
 \* the contract of update (from the property statement)
